@@ -701,6 +701,67 @@ pub fn exec_proj<S: Sc + BaseFloat + crate::machine::Exec>(op: &str, fm: &str, a
             };
             Tup(vec![B(got == want)])
         }
+        // C08: inverse_transform_vector agrees with inverse_transform, for any invertible matrix - projective ones included.
+        // <<both Some / both None, |itv(v) - inv.transform_vector(v)| relative in eps>>
+        ("inv_vec_agree_proj", [mv, V3(v)]) => {
+            let (a, b): (Option<Vector3<S>>, Option<Vector3<S>>) = match mv {
+                M4(m) => (m.inverse_transform_vector(*v), Transform::<Point3<S>>::inverse_transform(m).map(|i| i.transform_vector(*v))),
+                M3(m) => (<Matrix3<S> as Transform<Point3<S>>>::inverse_transform_vector(m, *v), <Matrix3<S> as Transform<Point3<S>>>::inverse_transform(m).map(|i| <Matrix3<S> as Transform<Point3<S>>>::transform_vector(&i, *v))),
+                _ => return None,
+            };
+            match (a, b) {
+                (Some(x), Some(y)) => { let n = (f(y.x).powi(2) + f(y.y).powi(2) + f(y.z).powi(2)).sqrt().max(1.0e-300);
+                    let e = ((f(x.x) - f(y.x)).powi(2) + (f(x.y) - f(y.y)).powi(2) + (f(x.z) - f(y.z)).powi(2)).sqrt();
+                    Tup(vec![B(true), I(ceil_i(e / (n * eps)))]) }
+                (None, None) => Tup(vec![B(true), I(0)]),
+                _ => Tup(vec![B(false), I(0)]),
+            }
+        }
+        // C13 inverse functions next to the ends of their domain and next to zero: asin, acos, atan of a against the
+        // functions of the number, relative error in eps (absolute next to a zero of the function).  <<asin, acos, atan>>
+        ("inv_trig_proj", [T(unit), I(code), B(neg)]) => {
+            let vals: &[f64] = &[0.9999, 1.0 - 1.0e-6, 1.0 - 1.0e-10, 1.0 - 2.220446049250313e-16, 0.5, 1.0e-8, 0.3, 0.999];
+            let a = vals[(*code as usize) % vals.len()] * if *neg { -1.0 } else { 1.0 };
+            let x: S = NumCast::from(a).unwrap();
+            let xa = f(x);
+            let deg = unit == "Deg";
+            let conv = |r: f64| if deg { r.to_degrees() } else { r };
+            let (s1, c1, t1) = if deg { (f(Deg::<S>::asin(x).0), f(Deg::<S>::acos(x).0), f(Deg::<S>::atan(x).0)) } else { (f(Rad::<S>::asin(x).0), f(Rad::<S>::acos(x).0), f(Rad::<S>::atan(x).0)) };
+            let rel = |v: f64, r: f64| ceil_i((v - r).abs() / (eps * r.abs().max(1.0e-300)));
+            Tup(vec![I(rel(s1, conv(xa.asin()))), I(if xa >= 1.0 { 0 } else { rel(c1, conv(xa.acos())) }), I(rel(t1, conv(xa.atan())))])
+        }
+        // C17 bit for bit: every spelling of an operator (by value, by reference on either side, compound assignment) gives
+        // the same native result on operands that are not exactly representable.  <<all forms agree ?>>
+        ("forms_eq_proj", [T(inner), rest @ ..]) => {
+            let third: S = NumCast::from(1.0f64 / 3.0).unwrap();
+            let args: Vec<Val<S>> = rest.iter().map(|v| match v { N(x) => N(*x + third * S::epsilon()), other => scale_val(other, S::one() + third) }).collect();
+            let mut outs: Vec<Vec<f64>> = Vec::new();
+            for form in ["vv", "rv", "vr", "rr", "as", "v", "r", "m"] {
+                if let Some(r) = <S as crate::machine::Exec>::exec(inner, form, &args) {
+                    if let Some(c) = crate::exec_misc::comps(&r) { outs.push(c.iter().map(|x| f(*x)).collect()); }
+                }
+            }
+            if outs.len() < 2 { return None; }
+            let same = outs.iter().all(|o| o.len() == outs[0].len() && o.iter().zip(outs[0].iter()).all(|(a, b)| a == b || (a.is_nan() && b.is_nan())));
+            Tup(vec![B(same), I(outs.len() as i64)])
+        }
+        // C09 with up a hair off the viewing direction: up' = dir + u0 * 10^ue (still not parallel).  As look_proj, with the
+        // deviations multiplied by the sine of the angle between up' and dir
+        ("look_near_proj", [T(inner), T(form), I(ue), rest @ ..]) => {
+            let ten: S = NumCast::from(10.0f64).unwrap();
+            let mut args: Vec<Val<S>> = rest.to_vec();
+            let n = args.len();
+            let dir: Vector3<S> = match (&args[n - 2], n >= 3) { (V3(d), _) => *d, (P3(c), true) => { if let P3(e) = args[n - 3] { *c - e } else { return None; } } _ => return None };
+            let u0 = if let V3(u) = args[n - 1] { u } else { return None; };
+            let up = dir + u0 * ten.powi(*ue as i32);
+            args[n - 1] = V3(up);
+            let sin = f(dir.cross(up).magnitude()) / (f(dir.magnitude()) * f(up.magnitude())).max(1.0e-300);
+            let mut a2: Vec<Val<S>> = vec![T(inner.clone()), T(form.clone())];
+            a2.extend(args);
+            // every clause loses a factor 1 / sin(angle(up, dir)) in the unmodified code too (the side axis is a normalised
+            // cross product of nearly parallel vectors): the three deviations are reported per unit of that conditioning
+            return match exec_proj::<S>("look_proj", fm, &a2)? { Tup(mut c) => { for i in [0usize, 2, 4, 6] { if let I(x) = c[i] { c[i] = I(ceil_i(x as f64 * sin)); } } Some(Tup(c)) } other => Some(other) };
+        }
         // C10 with far many orders of magnitude beyond near: far = near * ratio, ratio = 1e3 .. 1e12; the near plane still
         // goes to -1 and the far plane to +1, to a few eps (no 1/g amplification here).  <<built ?, near plane, far plane>> in eps
         ("deep_proj", [T(ctor), N(n), I(rc)]) => {
